@@ -76,7 +76,18 @@ CheckLex(r) ==
      ELSE IF errlines # Len(L!Errs(lx)) THEN Flag("DRIFT", r.case, <<"error lines", errlines, "JsonLexer", Len(L!Errs(lx))>>)
      ELSE TRUE
 
-Check(r) == IF r.kind = "noise" THEN CheckNoise(r) ELSE CheckLex(r)
+\* inputs of several hundred malformed regions, each on lines of its own (more than any fixed number of reports a run might allow itself): the record
+\* has the lines of every region (spans) and the line every diagnostic names (elines, read off "error:LINE:COLUMN:" on the policy's stream; the
+\* streams themselves are not in these records - splitting and parsing outputs of that length for every record does not fit the quick tier).
+\* Every region has a diagnostic that names one of its lines, the values between them come out as rows, the run succeeds.
+CheckAttrib(r) ==
+  LET Named(i) == \E j \in 1..Len(r.elines) : r.elines[j] >= r.spans[i][1] /\ r.elines[j] <= r.spans[i][2] IN
+  IF r.res # "ok" THEN Flag("MISMATCH", r.case, "run did not succeed")
+  ELSE IF r.nrows # r.wantrows THEN Flag("MISMATCH", r.case, <<"rows", r.nrows, "values", r.wantrows>>)
+  ELSE IF \E i \in 1..Len(r.spans) : ~Named(i)
+       THEN Flag("MISMATCH", r.case, <<"no diagnostic names a line of malformed region", CHOOSE i \in 1..Len(r.spans) : ~Named(i), "of", Len(r.spans), "diagnostics", Len(r.elines)>>)
+  ELSE TRUE
+Check(r) == IF r.kind = "noise" THEN CheckNoise(r) ELSE IF r.kind = "attrib" THEN CheckAttrib(r) ELSE CheckLex(r)
 Init == l = 1
 Next == l <= Len(Rec) /\ l' = l + 1 /\ Check(Rec[l])
 Spec == Init /\ [][Next]_l
